@@ -22,6 +22,37 @@ add('C09', 'model_checking',
     'recorded step of every count of the C01 space; evidence counts the distinct abstract states and transitions reached and the real traces validated.',
     'status is read from the record snapshots; bounded election sizes',
     'DESIGN.md section 2 C09')
+add('C02', 'model_checking',
+    'explicit-state conformance: a vote-conservation model is evaluated on every recorded snapshot (tallies + ballot weights) of every enumerated real count',
+    'For every count of the bounded space the conservation invariant of the rule family (Gregory: B-2*ulp*B*k <= total <= B, exact under rational; Meek: votes+residual <= B and == B after each distribution; '
+    'QPQ: ballot contributions sum to the number elected) is checked on every snapshot; the number of surplus transfers k is measured from ballot snapshots taken beside every logged action.',
+    'bounded election sizes; ballots observed through Election.ballots from outside; B taken from the parsed profile (C15 checks that)',
+    'DESIGN.md section 2 C02')
+add('C04', 'model_checking',
+    'explicit-state conformance: an independent quota model (integer arithmetic on stored units) and the has-quota election clauses are evaluated on every snapshot of every enumerated real count',
+    'The prescribed quota is recomputed from ballots, seats and the arithmetic scale and compared to the last stored unit at every in-scope snapshot (Meek family: after each distribution; QPQ: from the ballot snapshot); '
+    'at every exclusion / first surplus transfer of a round nobody hopeful holds a quota and nobody excluded holds one. Covers 11 rules x arithmetic menus (incl. display < precision) x bounded profiles.',
+    'bounded election sizes; "holds a quota" evaluated with the rule\'s own comparison (Guarded half-unit tolerance)',
+    'DESIGN.md section 2 C04')
+add('C06', 'model_checking',
+    'ballot-level reference model stepped in lock-step with every enumerated real Gregory-family count (positions and values of all ballots snapshotted beside every logged action)',
+    'A ballot-level model (position, value per ballot) is stepped alongside the real count: tallies must equal the ballots standing with each candidate, skipped entries must be non-continuing, surplus '
+    'transfers must re-value exactly the transferred candidate\'s ballots to old*surplus/tally rounded down (never up, at most the two truncations low, exact under rational), exclusions move ballots at unchanged value, '
+    'bystanders are untouched, values stay in [0,1] and never increase.',
+    'bounded election sizes; observation of Election.ballots[*].index/.weight/.multiplier from outside (exit 2 if gone)',
+    'DESIGN.md section 2 C06')
+add('C08', 'model_checking',
+    'explicit-state conformance: the Meek iteration invariants and exit conditions are evaluated on every post-distribution snapshot of every enumerated real meek / warren / meek-prf count',
+    'votes+residual == ballots exactly, keep-factor ranges per status, recorded surplus == recomputed surplus, omega exits have surplus <= omega (omega recomputed from the configuration), stable exits are logged, '
+    'exclusions only after a converged (omega/stable/batch) iteration; over the full arithmetic x omega x defeat_batch menu including omega below one unit (forces the stable exit) and equal-rank ballots.',
+    'bounded election sizes; rational meek/warren only on the smallest space under a CPU budget',
+    'DESIGN.md section 2 C08')
+add('C18', 'model_checking',
+    'audit automaton stepped over every snapshot of every enumerated real count + independent re-derivation of report, dump and JSON from the record',
+    'Every elect/defeat action must name exactly the candidate whose status changes at that step, no status change may go unlisted, the record starts with begin and ends with end agreeing with Election.elected/.defeated; '
+    'JSON must equal the record with numbers printed, every dump row and every report Action block (candidate lines and totals) must equal values recomputed from the action.',
+    'bounded election sizes; report parsed by its line labels',
+    'DESIGN.md section 2 C18')
 
 NOT_YET = {}   # pid -> reason, filled below for properties without a registered check
 
